@@ -20,3 +20,75 @@ contract(
     },
     props=["C08", "C10"],
 )
+
+# ------------------------------------------------------------------------------------------------ where: maximal runs of True
+contract(
+    target="skchange/utils/numba/general.py::where",
+    params={"indicator": "bool[N]"},
+    returns="list[(int,int)]",
+    ensures={
+        "in_range_sorted": "forall(range(len(result)), lambda q: 0 <= result[q][0] and result[q][0] < result[q][1] and result[q][1] <= N) and "
+                           "forall(range(len(result)), range(len(result)), lambda q, r: implies(q < r, result[q][1] < result[r][0]))",
+        "inside_true": "forall(range(len(result)), range(N), lambda q, u: implies(result[q][0] <= u and u < result[q][1], indicator[u]))",
+        "maximal": "forall(range(len(result)), lambda q: (result[q][0] == 0 or not indicator[result[q][0] - 1]) and (result[q][1] == N or not indicator[result[q][1]]))",
+        "covers": "forall(range(N), lambda u: implies(indicator[u], exists(range(len(result)), lambda q: result[q][0] <= u and u < result[q][1])))",
+    },
+    invariants={"loop#1": {
+        "closed": "forall(range(len(intervals)), lambda q: 0 <= intervals[q][0] and intervals[q][0] < intervals[q][1] and intervals[q][1] < _k + 1 and "
+                  "intervals[q][1] < N and not indicator[intervals[q][1]] and (intervals[q][0] == 0 or not indicator[intervals[q][0] - 1]))",
+        "sorted": "forall(range(len(intervals)), range(len(intervals)), lambda q, r: implies(q < r, intervals[q][1] < intervals[r][0]))",
+        "inside_true": "forall(range(len(intervals)), range(N), lambda q, u: implies(intervals[q][0] <= u and u < intervals[q][1], indicator[u]))",
+        "open_run": "iff(is_none(start), _k == 0 or not indicator[_k - 1]) and implies(not is_none(start), 0 <= optval(start) and optval(start) < _k and "
+                    "(optval(start) == 0 or not indicator[optval(start) - 1]) and forall(range(N), lambda u: implies(optval(start) <= u and u < _k, indicator[u])) and "
+                    "forall(range(len(intervals)), lambda q: intervals[q][1] < optval(start)))",
+        "covers": "forall(range(_k), lambda u: implies(indicator[u], (not is_none(start) and optval(start) <= u) or "
+                  "(0 <= g_run[u] and g_run[u] < len(intervals) and intervals[g_run[u]][0] <= u and u < intervals[g_run[u]][1])))",
+    }},
+    loop_vars={"loop#1": {"intervals": "list[(int,int)]", "start": "opt:int", "end": "opt:int", "g_run": "int[N]"}},
+    ghost=[
+        ("before:for i, val in *", "g_run = lam('int', N, lambda u: 0)"),
+        ("before:intervals.append((start, end))", "g_s0 = start"),
+        ("after:intervals.append((start, end))", "g_run = lam('int', N, lambda u: ite(g_s0 <= u and u < i, len(intervals) - 1, g_run[u]))"),
+    ],
+    props=["C08", "C04"],
+)
+
+ABOVE = lambda v: f"scores[{v}] > threshold"
+contract(
+    target="skchange/change_detectors/moving_window.py::get_moving_window_changepoints",
+    params={"scores": "real[n]", "threshold": "real", "min_detection_interval": "int"},
+    requires=["min_detection_interval >= 1"],
+    returns="list[int]",
+    ensures={
+        "range_increasing": f"forall(range(len(result)), lambda q: 0 <= result[q] and result[q] < n and {ABOVE('result[q]')}) and "
+                            "forall(range(len(result) - 1), lambda q: result[q] < result[q + 1])",
+        # each changepoint is the (first) position of the maximum score within its maximal run of above-threshold positions
+        "peak_of_run": "forall(range(len(result)), range(n), lambda q, u: implies(forall(range(n), lambda v: implies((u <= v and v <= result[q]) or "
+                       f"(result[q] <= v and v <= u), {ABOVE('v')})), scores[u] <= scores[result[q]] and implies(u < result[q], scores[u] < scores[result[q]])))",
+        # every maximal run of at least min_detection_interval positions contributes a changepoint
+        "complete": "forall(range(n), range(n + 1), lambda a, b: implies(a < b and b - a >= min_detection_interval and "
+                    f"forall(range(n), lambda v: implies(a <= v and v < b, {ABOVE('v')})) and (a == 0 or not {ABOVE('a - 1')}) and (b == n or not {ABOVE('b')}), "
+                    "exists(range(len(result)), lambda q: a <= result[q] and result[q] < b)))",
+        # ... and runs shorter than that contribute none
+        "min_run": "forall(range(len(result)), range(n), range(n + 1), lambda q, a, b: implies(a <= result[q] and result[q] < b and "
+                   f"forall(range(n), lambda v: implies(a <= v and v < b, {ABOVE('v')})) and (a == 0 or not {ABOVE('a - 1')}) and (b == n or not {ABOVE('b')}), "
+                   "b - a >= min_detection_interval))",
+    },
+    invariants={"loop#1": {
+        "src": "forall(range(len(changepoints)), lambda q: 0 <= g_iv[q] and g_iv[q] < _k and detection_intervals[g_iv[q]][0] <= changepoints[q] and "
+               "changepoints[q] < detection_intervals[g_iv[q]][1] and detection_intervals[g_iv[q]][1] - detection_intervals[g_iv[q]][0] >= min_detection_interval and "
+               "forall(range(detection_intervals[g_iv[q]][0], detection_intervals[g_iv[q]][1]), lambda u: scores[u] <= scores[changepoints[q]]) and "
+               "forall(range(detection_intervals[g_iv[q]][0], changepoints[q]), lambda u: scores[u] < scores[changepoints[q]]))",
+        "increasing": "forall(range(len(changepoints) - 1), lambda q: g_iv[q] < g_iv[q + 1])",
+        "complete": "forall(range(_k), lambda r: implies(detection_intervals[r][1] - detection_intervals[r][0] >= min_detection_interval, "
+                    "0 <= g_cp[r] and g_cp[r] < len(changepoints) and g_iv[g_cp[r]] == r))",
+    }},
+    loop_vars={"loop#1": {"changepoints": "list[int]", "g_iv": "int[n]", "g_cp": "int[n]"}},
+    ghost=[
+        ("before:for interval in *", "g_iv = lam('int', n, lambda q: 0)\ng_cp = lam('int', n, lambda r: 0)"),
+        ("after:changepoints.append(cpt)",
+         "g_iv = lam('int', n, lambda q: ite(q == len(changepoints) - 1, _k, g_iv[q]))\n"
+         "g_cp = lam('int', n, lambda r: ite(r == _k, len(changepoints) - 1, g_cp[r]))"),
+    ],
+    props=["C08", "C04"],
+)
